@@ -309,6 +309,64 @@ func (u *Unit) noteRead(st *State, elem types.Type, addr *Term) {
 }
 func (u *Unit) noteWrite(st *State, elem types.Type, addr *Term) {
 	u.writeEvent(st, "H:"+elemKey(elem))
+	u.writeInFrame(st, elem, addr)
+}
+
+// writeInFrame (C19): when the contract states an exact frame sameExcept(x, lo, hi) for
+// sample storage, every individual store lies inside one of those frames or in
+// storage the function allocated itself. This separates a write into the source
+// from a write into the destination when both have the same element type (a
+// same-value store is invisible to the value-based frame clause).
+func (u *Unit) writeInFrame(st *State, elem types.Type, addr *Term) {
+	if u.old == nil || !u.declaredModifies("H:"+elemKey(elem)) {
+		return
+	}
+	var alts []*Term
+	skipped := false
+	env := u.fnEnv(st)
+	var scan func(e *SExpr)
+	scan = func(e *SExpr) {
+		if e.Kind == "bin" && e.Name == "&&" {
+			scan(e.Args[0])
+			scan(e.Args[1])
+			return
+		}
+		if e.Kind == "call" && e.Name == "sameExcept" && len(e.Args) == 3 {
+			x := u.evalSpec(env, e.Args[0])
+			var base *Term
+			var xe types.Type
+			switch x.K {
+			case KBuf:
+				base, xe = u.bufData(u.old, x).Ptr, x.Elem
+			case KSlice:
+				base, xe = x.Ptr, x.Elem
+			default:
+				return
+			}
+			if !types.Identical(xe, elem) {
+				return
+			}
+			n0 := len(u.errs)
+			lo, hi := u.evalSpec(env, e.Args[1]).Term, u.evalSpec(env, e.Args[2]).Term
+			if len(u.errs) > n0 {
+				// the frame mentions the result: not evaluable in the middle of the function
+				u.errs = u.errs[:n0]
+				skipped = true
+				return
+			}
+			alts = append(alts, And(Le(Add(base, lo), addr), Lt(addr, Add(base, hi))))
+		}
+	}
+	nerr := len(u.errs)
+	for _, en := range u.ct.Ensures {
+		scan(en.Expr)
+	}
+	u.errs = u.errs[:nerr]
+	if len(alts) == 0 || skipped {
+		return
+	}
+	alts = append(alts, Ge(addr, u.brk(u.old, elem)))
+	u.oblige(st, "writes", "writes-in-frame:"+u.site("store"), []string{"C19"}, Or(alts...))
 }
 
 // writeEvent: the function (or a callee) writes state component comp on this
